@@ -25,7 +25,7 @@ CONSTANTS
  Sto = 2
  Rto = 1
  Gated <- G12
- Relay0 <- R0None
+ Relay0 <- R04
  RelayIds <- RIds
  LinkOps <- L12_24
 PROPERTIES GaterContract
